@@ -294,6 +294,61 @@ mut('C08', 'node_record_drops_retry_count', MN, """		RetryCount: node.State.Retr
 mut('C08', 'node_record_takes_status_text_only', MN, """		Status:     node.State.Status,
 		StatusText: node.State.Status.String(),""", """		StatusText: node.State.Status.String(),""")
 
+# ---- C06 / C07 history store
+JD = 'internal/persistence/jsondb/jsondb.go'
+JW = 'internal/persistence/jsondb/writer.go'
+UT = 'internal/util/utils.go'
+mut('C06', 'retention_removes_new_runs', JD, """		if info.ModTime().Before(ot) {""", """		if info.ModTime().After(ot) {""")
+mut('C06', 'lookup_ignores_the_request_id', JD, """		if status != nil && status.RequestID == requestID {""", """		if status != nil {""")
+mut('C06', 'pattern_without_the_dag_directory', JD, """	return escapeGlob(s.prefixWithDirectory(dagFile)) + "*" + extDat""", """	return escapeGlob(filepath.Join(s.location, "*", prefix(dagFile))) + "*" + extDat""")
+mut('C06', 'recent_history_oldest_first', JD, """		return timestamp(files[i]) > timestamp(files[j])""", """		return timestamp(files[i]) < timestamp(files[j])""")
+mut('C06', 'history_directory_without_path_hash', JD, """	return filepath.Join(s.location, fmt.Sprintf("%s-%s", prefix, v))""", """	_ = v
+	return filepath.Join(s.location, fmt.Sprintf("%s-%s", prefix, "history"))""")
+mut('C06', 'delete_uses_retention_of_one_day', JD, """	return s.RemoveOld(dagFile, 0)""", """	return s.RemoveOld(dagFile, 1)""")
+mut('C06', 'run_file_name_without_request_id', JD, """		util.TruncString(requestID, requestIDLenSafe),
+	), nil""", """		util.TruncString("", requestIDLenSafe),
+	), nil""")
+mut('C06', 'glob_escape_dropped_for_latest', JD, """		pattern = fmt.Sprintf("%s.*.*.dat", escapeGlob(s.prefixWithDirectory(dagFile)))""", """		pattern = fmt.Sprintf("%s.*.*.dat", s.prefixWithDirectory(dagFile))""")
+mut('C07', 'original_removed_before_copy_is_written', JD, """	w := &writer{target: f}
+	if err := w.open(); err != nil {
+		return err
+	}
+	defer w.close()
+
+	if err := w.write(status); err != nil {""", """	w := &writer{target: f}
+	if err := os.Remove(original); err != nil {
+		return err
+	}
+	if err := w.open(); err != nil {
+		return err
+	}
+	defer w.close()
+
+	if err := w.write(status); err != nil {""")
+mut('C07', 'write_acknowledged_without_flush', JW, """	if err := w.writer.WriteByte('\\n'); err != nil {
+		return err
+	}
+
+	return w.writer.Flush()""", """	return w.writer.WriteByte('\\n')""")
+mut('C07', 'record_without_newline', JW, """	if err := w.writer.WriteByte('\\n'); err != nil {
+		return err
+	}
+""", "")
+mut('C07', 'existing_file_is_truncated', UT, """	if FileExists(file) {
+		return openFile(file)
+	}
+	return createFile(file)""", """	return createFile(file)""")
+mut('C07', 'first_decodable_line_wins', JD, """			if err == nil {
+				ret = m
+			}""", """			if err == nil && ret == nil {
+				ret = m
+			}""")
+mut('C07', 'failed_copy_removes_the_original', JD, """		if removeErr := os.Remove(f); removeErr != nil {""", """		if removeErr := os.Remove(original); removeErr != nil {""")
+mut('C07', 'close_skips_compaction_result', JD, """	if err := s.Compact(s.writer.target); err != nil {
+		return err
+	}
+	s.cache.Invalidate(s.writer.target)""", """	s.cache.Invalidate(s.writer.target)""")
+
 # ---- C09 daemon
 D = 'internal/scheduler/scheduler.go'
 J = 'internal/scheduler/job.go'
